@@ -296,34 +296,84 @@ class FnTranslator:
             self.pre.append('if (verif_exc) { %s }' % self.propagate())
 
     # -- function ----------------------------------------------------------------------------------
-    def translate(self):
+    def signature(self):
+        """C parameter list [(name, type, is_ref_or_self)] and return type; honours a slice request."""
         n = self.node
-        fnt = n['type']['qualType']
-        ret_s = self._ret_type_string(n)
-        self.ret_t = self.P.tp.parse(ret_s)
-        params = []
+        self.ret_t = self.P.tp.parse(self._ret_type_string(n))
+        ps = []
+        body = [c for c in n.get('inner', []) or [] if c.get('kind') == 'CompoundStmt']
+        sl = self.U.slice_for(self.key) if hasattr(self.U, 'slice_for') else None
+        self.slice_stmts = None
+        if sl and body:
+            stmts = [c for c in body[0].get('inner', []) or []]
+            idx = [i for i, c in enumerate(stmts) if c.get('kind') == sl]
+            if not idx:
+                raise Unsupported('slice: no top-level %s in %s' % (sl, self.key))
+            self.slice_stmts = stmts[idx[0]:]
+            inside = set()
+            for st in self.slice_stmts:
+                for x in astload.walk(st):
+                    if x.get('kind') in ('VarDecl', 'ParmVarDecl'):
+                        inside.add(x['id'])
+            decls = {}
+            for c in n.get('inner', []) or []:
+                if c.get('kind') == 'ParmVarDecl':
+                    decls[c['id']] = c
+            for st in stmts[:idx[0]]:
+                for x in astload.walk(st):
+                    if x.get('kind') == 'VarDecl':
+                        decls[x['id']] = x
+            seen = []
+            for st in self.slice_stmts:
+                for x in astload.walk(st):
+                    if x.get('kind') == 'DeclRefExpr' and x['referencedDecl']['id'] in decls and x['referencedDecl']['id'] not in inside:
+                        if x['referencedDecl']['id'] not in seen:
+                            seen.append(x['referencedDecl']['id'])
+            for rid in seen:
+                d = decls[rid]
+                t = strip_ref(self.T(d))
+                if t[0] == 'opaque':
+                    self.local_names[rid] = (d['name'], t)   # may only be passed to an external that drops it
+                    continue
+                self.local_names[rid] = (d['name'], t)
+                ps.append((d['name'], t, False))
+            return ps
         if self.is_method:
-            params.append('%s* self' % self.ctype(('rec', self.owner)))
-        self.param_names = []
+            ps.append(('self', ('ptr', ('rec', self.owner)), True))
         for c in n.get('inner', []) or []:
             if c.get('kind') == 'ParmVarDecl':
                 pt = self.T(c)
-                nm = c.get('name') or self.tmp('unnamed')
+                nm = c.get('name') or 'p%d' % len(ps)
                 self.local_names[c['id']] = (nm, pt)
-                self.param_names.append((nm, pt))
-                if pt[0] == 'ref':
-                    params.append('%s* %s' % (self.ctype(pt[1]), nm))
-                else:
-                    params.append(self.decl(pt, nm))
+                ps.append((nm, ('ptr', pt[1]) if pt[0] == 'ref' else pt, pt[0] == 'ref'))
+        return ps
+
+    def translate(self):
+        n = self.node
+        ps = self.signature()
+        self.param_names = [(nm, self.local_names_type(nm)) for nm, _, _ in ps if nm != 'self']
+        params = []
+        for nm, t, isref in ps:
+            params.append('%s* %s' % (self.ctype(t[1]), nm) if isref else self.decl(t, nm))
         body = [c for c in n.get('inner', []) or [] if c.get('kind') == 'CompoundStmt']
         if not body:
             raise Unsupported('function %s has no body' % self.key)
         self.cname_ = self.U.fn_cname(self.key)
-        lines = self.stmt(body[0], top=True)
+        if self.slice_stmts is not None:
+            self.hit('slice')
+            lines = ['{'] + ['  ' + l for st in self.slice_stmts for l in self.stmt(st)] + ['}']
+        else:
+            lines = self.stmt(body[0], top=True)
         rett = 'void' if self.ret_t[0] == 'void' else self.ctype(self.ret_t)
         head = '%s %s(%s)' % (rett, self.cname_, ', '.join(params) if params else 'void')
-        self.signature = head
+        self.signature_text = head
         return head, lines
+
+    def local_names_type(self, nm):
+        for rid, (n_, t) in self.local_names.items():
+            if n_ == nm:
+                return t
+        return None
 
     def _ret_type_string(self, n):
         qt = n['type'].get('desugaredQualType', n['type']['qualType'])
@@ -1040,7 +1090,7 @@ class FnTranslator:
             if len(args) == 1 and args[0]['kind'] in ('StringLiteral',) or (len(args) == 1 and self._find(args[0], 'StringLiteral') is not None and strip_ref(self.T(args[0]))[0] == 'ptr'):
                 lit = self._find(args[0], 'StringLiteral')['value']
                 self.U.need_model('str')
-                return 'str_from_lit(%s)' % lit
+                return 'str_from_lit(%s, %d)' % (lit, self.U.literal_id(lit))
             raise Unsupported('string constructor %s' % ctor_t)
         if ct[0] == 'rec':
             if ct[1] in self.P.exc_parent:
@@ -1166,6 +1216,11 @@ class FnTranslator:
         if len(args) != len(ptypes):
             raise Unsupported('argument count mismatch calling %s' % key)
         for i, (a, pt) in enumerate(zip(args, ptypes)):
+            if strip_ref(pt)[0] == 'opaque':
+                if a.get('kind') != 'DeclRefExpr':
+                    raise Unsupported('argument of opaque type %s to %s is not a plain variable' % (pt, key))
+                self.hit('opaque-argument(dropped)')
+                continue
             if a.get('kind') == 'CXXDefaultArgExpr':
                 a = self.default_arg(key, i)
                 self.hit('default-argument')
@@ -1530,6 +1585,20 @@ class FnTranslator:
                     eq = self.U.eq_fn(a0t)
                     b = self.addr(args[1])
                     return '%s%s(%s, %s)' % ('!' if op == 'operator!=' else '', eq, o, b)
+                if bt == a0t[1]:
+                    # optional<T> == T : engaged and equal
+                    b = self.addr(args[1])
+                    if bt[0] in ('int', 'bool', 'double', 'float', 'enum', 'ptr'):
+                        e = '(%s->has && %s->val == *%s)' % (o, o, b)
+                    else:
+                        e = '(%s->has && %s(&%s->val, %s))' % (o, self.U.eq_fn(bt), o, b)
+                    return ('!' + e) if op == 'operator!=' else e
+        if a0t[0] == 'str' and op == 'operator+':
+            lit = self._find(args[1], 'StringLiteral') if strip_ref(self.T(args[1]))[0] == 'ptr' else None
+            if lit is None:
+                raise Unsupported('string + non-literal')
+            self.U.need_model('str')
+            return 'str_concat_lit(%s, %s, %d)' % (self.addr(args[0]), lit['value'], self.U.literal_id(lit['value']))
         if a0t[0] == 'str' and op in ('operator==', 'operator!='):
             bt = strip_ref(self.T(args[1]))
             self.U.need_model('str')
